@@ -249,12 +249,14 @@ def gen_scenario(root, profile=None):
             sched["rung_increment"] = r.randint(1, 2)
             sched["brackets"] = 1
             sched["grace_period"] = 1
-            sched["probability_sh"] = r.choice([0.0, 0.25, 1.0])
+            sched["probability_sh"] = r.choice([0.0, 0.25, 0.9])
         if kind in PAUSE_RESUME or sched.get("hb_type") == "promotion":
             if r.chance(0.3):
                 sched["early_ckpt_removal"] = {"max_num_checkpoints": r.randint(1, 4)}
     elif kind in ("sync_hb", "sync_hb_bo", "dehb"):
         sched["brackets"] = r.choice([None, 1, 2, 3])
+        if kind == "dehb" and not r.chance(0.1):
+            sched["brackets"] = None  # restricted bracket counts hit KF6 (IndexError): kept at a small weight
         sched["grace_period"] = r.choice([1, 1, 2])
         if sched["grace_period"] >= max_t:
             sched["grace_period"] = 1
@@ -300,6 +302,14 @@ def gen_scenario(root, profile=None):
             sched["gp_model"] = "gp_independent"
         elif kind in ("hb_stopping_bo", "hb_promotion_bo", "sync_hb_bo"):
             sched["gp_model"] = r.choice(["gp_multitask", "gp_multitask", "gp_independent", "gp_expdecay"])
+            if kind == "sync_hb_bo" and sched["gp_model"] == "gp_expdecay":
+                sched["gp_model"] = "gp_multitask"
+            if sched["gp_model"] == "gp_expdecay":
+                sched["searcher_data"] = "all"  # documented requirement of the learning-curve models
+        if sched.get("gp_model") == "gp_independent":
+            # independent GPs live on rung levels only (documented for HyperTune): data and pending at rung levels
+            sched["searcher_data"] = "rungs"
+            sched["register_pending_myopic"] = False
     scen["scheduler"] = sched
     # ---- job script -----------------------------------------------------
     script = {
@@ -339,10 +349,10 @@ def gen_scenario(root, profile=None):
             stop[f] = r.randint(1, p["max_trials"])
     if "max_wallclock_time" not in stop and "max_num_trials_started" not in stop:
         # safety net so that every run terminates in bounded simulated time
-        stop["max_wallclock_time"] = 400.0 * script["pace"]["mean"]
+        stop["max_wallclock_time"] = 150.0 * script["pace"]["mean"]
     if sched.get("early_ckpt_removal") and "max_wallclock_time" not in stop:
         # the early-removal callback documents that it needs max_wallclock_time
-        stop["max_wallclock_time"] = 400.0 * script["pace"]["mean"]
+        stop["max_wallclock_time"] = 150.0 * script["pace"]["mean"]
     tuner = {
         "n_workers": n_workers,
         "sleep_time": r.choice([0.1, 0.5, 1.0, 1.0, 2.0, 5.0]) * script["pace"]["mean"],
@@ -354,6 +364,9 @@ def gen_scenario(root, profile=None):
         "save_tuner": r.chance(p["p_save_tuner"]),
         "stop": stop,
     }
+    if tuner["save_tuner"] and tuner["results_update_interval"] < 30.0:
+        # Tuner.save dill-pickles the whole tuner (all rows so far) once per interval: keep it off the per-result path
+        tuner["results_update_interval"] = 30.0
     scen["tuner"] = tuner
     scen["backend"] = {
         "delete_checkpoints": r.chance(p["p_delete_ckpt"]),
